@@ -21,6 +21,8 @@ from .value import (
     DictIncompleteValue,
     KnownValue,
     MultiValuedValue,
+    ParamSpecArgsValue,
+    ParamSpecKwargsValue,
     SequenceValue,
     SubclassValue,
     TypedDictValue,
@@ -136,6 +138,9 @@ def _get_boolability_no_mvv(value: Value) -> Boolability:
             return Boolability.boolable
         else:
             return Boolability.value_always_false_mutable
+    elif isinstance(value, (ParamSpecArgsValue, ParamSpecKwargsValue)):
+        # A tuple or dict that may be empty
+        return Boolability.boolable
     elif isinstance(value, SubclassValue):
         # Could be false if a metaclass overrides __bool__, but we're
         # not handling that for now.
